@@ -134,7 +134,10 @@ class Bounded:
         """keep a few failures per (clause, shape) so that every class of failing input is reported"""
         out, cnt = [], {}
         for f in self.failures:
-            shape = f["input"].get("shape") if isinstance(f.get("input"), dict) else None
+            shape = None
+            if isinstance(f.get("input"), dict):
+                # the declared shape, else the input's flags and short labels (so a known class of failing input cannot crowd out another one)
+                shape = f["input"].get("shape") or tuple(sorted((k_, v_) for k_, v_ in f["input"].items() if isinstance(v_, (bool, str)) and len(str(v_)) <= 24))
             k = (f["clause"], shape)
             cnt[k] = cnt.get(k, 0) + 1
             if cnt[k] <= 3:
